@@ -176,6 +176,7 @@ class Tracer:
         self.armed = None
         self.last_open_ev = None
         self.info = {}
+        self.inflight_fn = None
 
     # -- helpers
     def rel(self, p):
@@ -255,6 +256,8 @@ class Tracer:
         st = self.state
         if st is not None:
             ev["cstep"] = int(st.cstep)
+        if self.inflight_fn is not None and ev["op"] == "open-w" and "write_toml" in ev["tags"]:
+            ev["inflight"] = self.inflight_fn()
         self.events.append(ev)
         if self.crash is not None and k == self.crash["k"]:
             if self.crash["mode"] == "before":
@@ -318,7 +321,7 @@ def install(tracer, completion="fifo"):
 
     class FList:
         def __init__(self):
-            self.l = []
+            self.l = pending
 
         def add(self, f):
             self.l.append(f)
@@ -330,6 +333,13 @@ def install(tracer, completion="fifo"):
             f.result()
             return f
 
+    pending = []
+
+    def inflight():
+        return [{"ens": [int(e) for e in f.md["ens_nums"]], "paths": [int(p) for p in f.md["pnum_old"]]}
+                for f in pending]
+
+    tracer.inflight_fn = inflight
     real_internal = isetup.setup_internal
 
     def setup_internal(config):
